@@ -371,6 +371,12 @@ nenv = lax.cond(done, lambda: s, lambda: s1)
             continue
         _, condf, bodyf, init = wl
         carry = ("tuple", (("param", "$s"), ("param", "$ps"), ("param", "$k"), ("param", "$cum")))
+        nt_init = b6.namedtuple_fields(init)
+        if nt_init is not None and len(nt_init) == 4:
+            # a NamedTuple carry: the symbolic carry is an instance of the same class (fields by declared position), the initial carry its tuple
+            order7 = [f_.name for f_ in s.prog.dataclass_fields(s.prog.classes[init[1]])]
+            carry = ("record", init[1], tuple(zip(order7, carry[1])))
+            init = ("tuple", nt_init)
         c = strip_keys(b6.apply(condf, (carry,), ()))
         want = s.ref(b6, "~(env.terminal(s, key=K) | env.truncate(s))", {"env": envp, "s": ("param", "$s"), "K": KEY})
         s.eq("C19.5", con7, nz6, c, want, "the loop continues exactly while ~(terminal(state) | truncate(state))", loc7, key="while-cond",
